@@ -352,7 +352,7 @@ func c03prop(ev *evid.Rec) func(rt *rapid.T) {
 				}
 			case "transfer":
 				h.XKind = rapid.SampledFrom([]string{"upload", "upload", "folderup", "folderdown", "download"}).Draw(rt, l+"_xkind")
-				h.XRef = rapid.SampledFrom([]string{"valid", "valid", "valid", "unknown", "badproto", "short"}).Draw(rt, l+"_xref")
+				h.XRef = rapid.SampledFrom([]string{"valid", "valid", "valid", "unknown", "badproto", "short", "replayed"}).Draw(rt, l+"_xref") // replayed: one valid grant presented on three transfer connections at the same instant
 				h.XGrant = rapid.SampledFrom([]string{"", "", "no-size", "short-size", "no-count", "short-count"}).Draw(rt, l+"_xgrant")
 				var d string
 				h.XStream, d = c03HostileTransfer(rt, l+"_x", h.XKind)
@@ -438,7 +438,7 @@ func c03prop(ev *evid.Rec) func(rt *rapid.T) {
 						lv.in = true
 						reached++
 					}
-					if h.Mode == "transfer" && lv.in && h.XRef == "valid" {
+					if h.Mode == "transfer" && lv.in && (h.XRef == "valid" || h.XRef == "replayed") {
 						var r *hlref.Tran
 						switch h.XKind {
 						case "upload", "folderup":
@@ -503,6 +503,14 @@ func c03prop(ev *evid.Rec) func(rt *rapid.T) {
 					}
 					x.SendAsync(pre)
 					x.SendAsync(lv.h.XStream)
+					if lv.h.XRef == "replayed" {
+						for k := 0; k < 2; k++ {
+							x2 := w.OpenTransfer(fmt.Sprintf("10.3.%d.%d:1", 3+k, i+1))
+							xs = append(xs, x2)
+							x2.SendAsync(pre)
+							x2.SendAsync(lv.h.XStream)
+						}
+					}
 				default:
 					for _, m := range lv.h.Msgs {
 						lv.c.SendAsync(m)
